@@ -25,85 +25,79 @@ EXTRACT = "geneticengine.grammar.grammar:extract_grammar"
 
 
 def rule_r1(ctx: Ctx) -> None:
+    """update_weights is interpreted (sa/modelinterp, exact rational arithmetic) on a grammar model with two rules
+    (R1 -> p1 | p2, R2 -> p3 | p4 | p5), raw weights, a learning rate and extra weights: afterwards every production carries
+    (raw + rate * extra) / (sum of that over its own rule) - the weights of each rule sum to exactly one - and that value is
+    written back to every production (not only to the user-listed subtypes)."""
+    from fractions import Fraction as F
+    from ..modelinterp import Budget, Effect, Interp, Sym, UNKNOWN, _NONE
     uw = ctx.fn(UPDATE)
-    outer = [l for l in uw.node.body if isinstance(l, ast.For) and isinstance(l.iter, ast.Attribute) and l.iter.attr == "alternatives"]
-    norm_loops = [l for l in outer if any(isinstance(a, ast.AugAssign) for b_ in l.body for a in ast.walk(b_))]
-    if len(norm_loops) != 1:
-        ctx.ob("C19.R1", uw, uw.node, "per-rule normalisation loop", None, f"{len(norm_loops)} candidate loops over self.alternatives")
-        return
-    L = norm_loops[0]
-    rule_var = L.target.id if isinstance(L.target, ast.Name) else None
-    inner = [l for l in L.body if isinstance(l, ast.For)]
-    accs = [a for a in L.body if isinstance(a, ast.Assign) and isinstance(a.targets[0], ast.Name) and isinstance(a.value, ast.Constant) and a.value.value == 0]
-    ok_reset = len(accs) == 1
-    ctx.ob("C19.R1", uw, accs[0] if accs else L, "the per-rule total is reset to 0 for every rule", ok_reset,
-           "" if ok_reset else "the accumulator is not initialised inside the per-rule loop: totals of earlier rules leak into later ones and "
-                               "the weights of a rule no longer sum to one")
-    if not ok_reset or len(inner) != 2:
-        if len(inner) != 2:
-            ctx.ob("C19.R1", uw, L, "accumulate loop followed by divide loop", None, f"{len(inner)} inner loops")
-        return
-    acc = accs[0].targets[0].id
-    l1, l2 = inner
-    same_iter = norm(l1.iter) == norm(l2.iter)
-    prods_src = l1.iter
-    if isinstance(prods_src, ast.Name):
-        d = [a for a in L.body if isinstance(a, ast.Assign) and isinstance(a.targets[0], ast.Name) and a.targets[0].id == prods_src.id]
-        prods_src = d[0].value if d else prods_src
-    from_rule = isinstance(prods_src, ast.Subscript) and isinstance(prods_src.value, ast.Attribute) and prods_src.value.attr == "alternatives" \
-        and isinstance(prods_src.slice, ast.Name) and prods_src.slice.id == rule_var
-    ctx.ob("C19.R1", uw, l1, "both inner loops run over this rule's productions", same_iter and from_rule,
-           "" if same_iter and from_rule else "the sum and the division run over different collections (or not over alternatives[rule])")
-    v1 = l1.target.id if isinstance(l1.target, ast.Name) else None
-    v2 = l2.target.id if isinstance(l2.target, ast.Name) else None
-    # accumulate: acc += weights[prod] after the additive update
-    adds = [a for a in l1.body if isinstance(a, ast.AugAssign) and isinstance(a.target, ast.Name) and a.target.id == acc and isinstance(a.op, ast.Add)]
-    upd = [a for a in l1.body if isinstance(a, ast.AugAssign) and isinstance(a.target, ast.Subscript)]
-    ok_acc = len(adds) == 1 and isinstance(adds[0].value, ast.Subscript) and isinstance(adds[0].value.slice, ast.Name) and adds[0].value.slice.id == v1
-    order_ok = not upd or (adds and l1.body.index(upd[0]) < l1.body.index(adds[0]))
-    ctx.ob("C19.R1", uw, adds[0] if adds else l1, "the total sums the updated weight of each production of the rule, once", ok_acc and order_ok,
-           "" if ok_acc and order_ok else "the accumulator does not add weights[prod] exactly once per production after the update")
-    wname = adds[0].value.value.id if ok_acc and isinstance(adds[0].value.value, ast.Name) else None
-    divs = [a for a in l2.body if isinstance(a, (ast.Assign, ast.AugAssign))]
-    ok_div = False
-    why = "no division of weights[prod] by the rule's total"
-    if len(divs) == 1:
-        a = divs[0]
-        tgt = a.targets[0] if isinstance(a, ast.Assign) else a.target
-        val = a.value
-        if isinstance(a, ast.Assign) and isinstance(val, ast.BinOp) and isinstance(val.op, ast.Div):
-            num, den = val.left, val.right
-            ok_div = isinstance(tgt, ast.Subscript) and isinstance(tgt.slice, ast.Name) and tgt.slice.id == v2 and norm(num) == norm(tgt) \
-                and isinstance(den, ast.Name) and den.id == acc and (wname is None or (isinstance(tgt.value, ast.Name) and tgt.value.id == wname))
-            if not ok_div:
-                why = f"'{norm(a)}' does not divide the production's own weight by the rule's total '{acc}'"
-        elif isinstance(a, ast.AugAssign) and isinstance(a.op, ast.Div):
-            ok_div = isinstance(a.value, ast.Name) and a.value.id == acc and isinstance(tgt, ast.Subscript) and isinstance(tgt.slice, ast.Name) and tgt.slice.id == v2
-    ctx.ob("C19.R1", uw, divs[0] if divs else l2, "each weight of the rule is divided by the rule's total", ok_div, "" if ok_div else why)
-    # write-back to the classes
-    wb = [a for a in walk_local(uw.node) if isinstance(a, ast.Assign) and isinstance(a.targets[0], ast.Subscript)
-          and isinstance(a.targets[0].slice, ast.Constant) and a.targets[0].slice.value == "weight"]
-    ok_wb = bool(wb) and all(isinstance(a.value, ast.Subscript) and isinstance(a.value.value, ast.Name) and (wname is None or a.value.value.id == wname) for a in wb)
-    ctx.ob("C19.R1", uw, wb[0] if wb else uw.node, "normalised weights are written back to the classes", ok_wb,
-           "" if ok_wb else "the normalised weights are not stored on the classes: a second extraction starts from the old values")
+    rules = {"R1": ["p1", "p2"], "R2": ["p3", "p4", "p5"]}
+    scenarios = [
+        ({"p1": F(1), "p2": F(3), "p3": F(2), "p4": F(2), "p5": F(1)}, F(1, 2), {"p1": F(2), "p2": F(0), "p3": F(4), "p4": F(0), "p5": F(2)}),
+        ({"p1": F(1), "p2": F(1), "p3": F(0), "p4": F(5), "p5": F(5)}, F(1), {"p1": F(0), "p2": F(0), "p3": F(0), "p4": F(1), "p5": F(3)}),
+    ]
+    bad = und = None
+    n = 0
+    for raw, rate, extra in scenarios:
+        stored: dict[str, dict] = {}
 
-    # every production that was normalised is written back: a write-back loop over the rules' productions (or over
-    # all weights), not only over the user-listed subtypes
-    covers = False
-    for a in wb:
-        loops = [l for l in _anc(a) if isinstance(l, ast.For)]
-        for l in loops:
-            it = l.iter
-            if isinstance(it, ast.Name):
-                d = [x for x in walk_local(uw.node) if isinstance(x, ast.Assign) and isinstance(x.targets[0], ast.Name) and x.targets[0].id == it.id]
-                it = d[-1].value if d else it
-            txt = norm(it)
-            if "alternatives" in txt or (wname and txt in (wname, f"{wname}.keys()", f"{wname}.items()")) or txt.endswith("all_nodes"):
-                covers = True
-    ctx.ob("C19.R1", uw, wb[0] if wb else uw.node, "the write-back covers every production whose weight was normalised", covers,
-           "" if covers else "only the classes listed in considered_subtypes (and the start symbol) are written back: a production reached "
-                             "through its parents keeps its raw weight, the rule's weights no longer sum to one and repeated extraction drifts "
-                             "(0.75 -> 0.43 -> 0.30 for a sibling weighted 3)")
+        def call_model(it, call, env, args, kwargs, raw=raw, stored=stored):
+            nm = call_name(call)
+            if nm == "get_weights":
+                return {k: v for k, v in raw.items()} | {"START": F(1), "sub1": F(1)}
+            if nm == "get_gengy" and len(args) == 1 and isinstance(args[0], Sym):
+                return stored.setdefault(args[0].tag, {"weight": raw.get(args[0].tag)})
+            if nm in ("__init__", "register_type", "preprocess", "validate"):
+                return _NONE
+            return None
+
+        it = Interp(ctx.prog, uw.cls, lambda *_: None, call_model, max_depth=4, max_traces=8)
+        it.on_start = stored.clear
+        prm = [p_ for p_ in uw.params if p_ != "self"]
+        env = {"self": Sym("self"), prm[0]: rate, prm[1]: {k: v for k, v in extra.items()} | {"START": F(0), "sub1": F(0)},
+               "self.alternatives": {r: [Sym(p_) for p_ in ps] for r, ps in rules.items()}, "self.starting_symbol": Sym("START"),
+               "self.considered_subtypes": [Sym("sub1")], "self.all_nodes": [Sym(p_) for ps in rules.values() for p_ in ps]}
+        try:
+            runs = it.run(uw, env)
+        except Budget:
+            und = "too many interpretations"
+            continue
+        for trace, rv, notes in runs:
+            if any(e.kind == "raise" for e in trace):
+                nm_ = [e.name for e in trace if e.kind == "raise"][0]
+                n += 1
+                if nm_.startswith(("AssertionError", "ZeroDivisionError")):
+                    bad = bad or (f"update_weights fails ({nm_}) on raw weights {dict((k, str(v)) for k, v in raw.items())}, rate {rate}: the weights it "
+                                  f"computes are not normalised per rule", {"raw": {k: str(v) for k, v in raw.items()}})
+                else:
+                    und = und or f"a path raises ({nm_})"
+                continue
+            n += 1
+            scen = {"raw": {k: str(v) for k, v in raw.items()}, "learning_rate": str(rate), "extra": {k: str(v) for k, v in extra.items()}}
+            for r, ps in rules.items():
+                tot = sum(raw[p_] + rate * extra[p_] for p_ in ps)
+                got_sum = F(0)
+                for p_ in ps:
+                    want = (raw[p_] + rate * extra[p_]) / tot
+                    got = stored.get(p_, {}).get("weight", raw[p_])
+                    if not isinstance(got, (int, F)) and got is not UNKNOWN and not isinstance(got, float):
+                        und = und or f"weight of {p_} not followed ({got!r})"
+                        continue
+                    if got is UNKNOWN:
+                        und = und or f"weight of {p_} not followed"
+                        continue
+                    got_sum += F(got)
+                    if F(got) != want and bad is None:
+                        wb = p_ in stored and "weight" in stored[p_] and stored[p_]["weight"] != raw[p_]
+                        bad = (f"after update_weights production {p_} of rule {r} carries weight {got} instead of {want} "
+                               f"(raw {raw[p_]}, rate {rate}, extra {extra[p_]}, rule total {tot})"
+                               + ("" if wb else ": the normalised weight is not written back to the class, a second extraction starts from the old value"), scen)
+                if bad is None and got_sum != 1 and und is None:
+                    bad = (f"the weights of rule {r} sum to {got_sum} after update_weights, not to 1", scen)
+    ctx.ob("C19.R1", uw, uw.node, "after update_weights every production carries (raw + rate*extra) / (its rule's total): each rule sums to 1, written back to every production",
+           False if bad else (None if und else True), bad[0] if bad else (und or ""), witness=bad[1] if bad else {"scenarios": n})
+    ctx.floor("C19.R1", n, 2, "interpreted update_weights scenarios")
 
     # get_weights default
     gw = ctx.fn(GETW)
